@@ -90,6 +90,18 @@ def load_known():
         return json.load(f)
 
 
+def _limit_worker():
+    """a worker that runs away (a mutated parser that no longer terminates can
+    allocate without bound before the watchdog fires) gets MemoryError
+    instead of taking the machine down"""
+    import resource
+    try:
+        lim = int(os.environ.get('VERIF_WORKER_MEM_GB', '6')) * (1 << 30)
+        resource.setrlimit(resource.RLIMIT_AS, (lim, lim))
+    except (ValueError, OSError):
+        pass
+
+
 def pmap(fn, chunks, nproc=None):
     """Map fn over chunks in worker processes (fork), preserving order."""
     nproc = nproc or NPROC
@@ -97,7 +109,7 @@ def pmap(fn, chunks, nproc=None):
     if nproc <= 1 or len(chunks) <= 1:
         return [fn(c) for c in chunks]
     ctx = multiprocessing.get_context('fork')
-    with ctx.Pool(min(nproc, len(chunks))) as pool:
+    with ctx.Pool(min(nproc, len(chunks)), initializer=_limit_worker) as pool:
         return pool.map(fn, chunks, chunksize=1)
 
 
